@@ -18,8 +18,9 @@ func init() {
 		ID:       "C08",
 		Generate: generate,
 		Replay: func(raw json.RawMessage, r *mon.R) {
-			var s string
-			json.Unmarshal(raw, &s)
+			var ms mon.Str
+			json.Unmarshal(raw, &ms)
+			s := string(ms)
 			Check(s, r)
 		},
 		Rule: "inputs: for each program of a generated corpus every single-token corruption (delete each token, insert each of ~110 vocabulary tokens at each position, duplicate, transpose neighbours, truncate at each position), " +
@@ -108,7 +109,7 @@ func sameTok(a stok, k parser.TokenKind, v string) bool {
 
 // Check decides one source.
 func Check(src string, r *mon.R) {
-	r.Case = src
+	r.Case = mon.Str(src)
 	stmts, err, o := mon.Parse(src)
 	if o.Anomalous() {
 		r.Inconclusive("foreign_parse_anomaly")
